@@ -453,7 +453,8 @@ def write_evidence(pid, tier, seed, b, res, pclosure, ob_tags, failed_tags, used
             fn = b.fns.get(fid, {})
             samples.append({"obligation": t, "clause": b.clauses[t].text, "on": f"{fn.get('file')}:{fn.get('line_start')}-{fn.get('line_end')}"})
     n_ob = len(ob_tags) + len(spec_fns)
-    n_failed = len(failed_tags) + sum(1 for v in spec_fns.values() if v.get("success") is False)
+    # a failing spec-library lemma aborts the check as UNDECIDED before this point, so only tagged obligations can fail here
+    n_failed = len(failed_tags)
     ev = {
         "property_id": pid,
         "tier": tier,
